@@ -5,22 +5,9 @@ export GOPROXY := off
 export GOSUMDB := off
 export GOTOOLCHAIN := local
 
-.PHONY: setup coq harness clean facts
-setup: facts coq harness
-
-# C18: the access facts are generated from /repo's current source (also on every check run)
-facts:
-	mkdir -p build/bin build/run/C18
-	cd lockset && go build -o ../build/bin/lockset .
-	build/bin/lockset -repo /repo -config lockset/config.json -coq theories/C18/Accesses.v -json build/run/C18/facts.json
-
-coq:
-	./theories/gen_coqproject.sh
-	$(MAKE) -C theories -f Makefile.coq -j16
-
-harness:
-	mkdir -p build/bin
-	cd harness && for d in cmd/*/; do n=$$(basename $$d); go build -tags verif -o ../build/bin/$$n ./cmd/$$n || echo "harness $$n does not build yet"; done
+.PHONY: setup clean
+setup:
+	./setup.sh
 
 clean:
 	rm -rf build
